@@ -32,6 +32,101 @@ pub(crate) fn stub_alt_find<'a>(s: &'a AlternateTime, _t: i64) -> Result<&'a Loc
     Ok(s.std())
 }
 
+
+// @begin needs: binary_search_transitions\(self\.transitions ;; binary_search_leap_seconds\(self\.leap_seconds
+// ------------------------------------------------------------------ C03 / C12: the shared binary-search helper for EVERY table length up to 64.
+// The search is comparison-based: its index arithmetic depends only on the outcomes of the comparisons, and those are exhausted by a
+// symbolic key over a fixed strictly increasing table (10*i - 200) - every length 0..64, every key between, at, before and after the
+// entries. (The zone harnesses above use symbolic contents but lengths <= 6/8/12.)
+const BS_N: usize = 64;
+const BS_TR: [Transition; BS_N] = {
+    let mut a = [Transition::new(0, 0); BS_N];
+    let mut i = 0;
+    while i < BS_N {
+        a[i] = Transition::new(10 * i as i64 - 200, 0);
+        i += 1;
+    }
+    a
+};
+const BS_LS: [LeapSecond; BS_N] = {
+    let mut a = [LeapSecond::new(0, 0); BS_N];
+    let mut i = 0;
+    while i < BS_N {
+        a[i] = LeapSecond::new(10 * i as i64 - 200, i as i32);
+        i += 1;
+    }
+    a
+};
+
+fn bs_key_and_expectation(n: usize) -> (i64, Result<usize, usize>) {
+    let k: i64 = kani::any();
+    let d: i64 = kani::any();
+    kani::assume(-2 <= k && k <= BS_N as i64 + 1 && 0 <= d && d <= 9);
+    let x = 10 * k - 200 + d;
+    let want = if d == 0 && 0 <= k && (k as usize) < n {
+        Ok(k as usize)
+    } else {
+        // number of entries below the key
+        let below = if d > 0 { k + 1 } else { k };
+        Err(if below < 0 { 0 } else if below as usize > n { n } else { below as usize })
+    };
+    (x, want)
+}
+
+#[kani::proof]
+#[kani::unwind(9)]
+fn c03_binary_search_transitions_every_length_upto_64() {
+    let n: usize = kani::any();
+    kani::assume(n <= BS_N);
+    let (x, want) = bs_key_and_expectation(n);
+    let got = crate::utils::binary_search_transitions(&BS_TR[..n], x);
+    assert!(got == want);
+    kani::cover!(n == 9 && matches!(got, Err(8)));
+    kani::cover!(n == BS_N && matches!(got, Ok(0)));
+}
+
+#[kani::proof]
+#[kani::unwind(9)]
+fn c12_binary_search_leap_seconds_every_length_upto_64() {
+    let n: usize = kani::any();
+    kani::assume(n <= BS_N);
+    let (x, want) = bs_key_and_expectation(n);
+    let got = crate::utils::binary_search_leap_seconds(&BS_LS[..n], x);
+    assert!(got == want);
+    kani::cover!(n == 27 && matches!(got, Ok(26)));
+}
+// @end
+
+// @begin needs: const fn new_unchecked\( ;; binary_search_transitions\(self\.transitions ;; binary_search_leap_seconds\(self\.leap_seconds
+/// the same helper through the public lookup: a zone with 0..=64 transitions at 10*i - 200 (all of type 0, no rule): "no type available"
+/// exactly at or after the last transition, whatever the length
+#[kani::proof]
+#[kani::unwind(9)]
+#[kani::stub(crate::timezone::RuleDay::unix_time, stub_rule_unix_time)]
+#[kani::stub(crate::timezone::AlternateTime::find_local_time_type, stub_alt_find)]
+fn c03_lookup_every_length_upto_64_concrete_table() {
+    let n: usize = kani::any();
+    kani::assume(n <= BS_N);
+    let types = [LocalTimeType::utc(), match LocalTimeType::with_ut_offset(3600) {
+        Ok(l) => l,
+        Err(_) => return,
+    }];
+    let zone = TimeZoneRef::new_unchecked(&BS_TR[..n], &types, &[], &None);
+    let (x, want) = bs_key_and_expectation(n);
+    let r = zone.find_local_time_type(x);
+    // all entries carry type index 0: at/after the last transition there is no type (no rule); before: types[0]
+    let last = match want {
+        Ok(i) => i + 1,
+        Err(i) => i,
+    };
+    if n > 0 && last == n {
+        assert!(matches!(r, Err(TzError::NoAvailableLocalTimeType)));
+    } else {
+        assert!(matches!(r, Ok(l) if core::ptr::eq(l, &types[0])));
+    }
+}
+// @end
+
 // ------------------------------------------------------------------ C12
 /// Declarative specification: the correction in force at leap count `l` is that of the last record whose own
 /// second has been reached: a record that RAISES the correction (inserted second) applies after its second
